@@ -606,7 +606,31 @@ class CastUnmarshaller(AbstractUnmarshaller[T]):
             return text if isinstance(text, self.t) else self.caster(text)
 
 
-PathUnmarshaller = CastUnmarshaller[pathlib.Path]
+PathT = tp.TypeVar("PathT", bound=pathlib.PurePath)
+
+
+class PathUnmarshaller(AbstractUnmarshaller[PathT], tp.Generic[PathT]):
+    """Unmarshaller that converts an input to a path.
+
+    Note:
+        The text of a path is the path itself, it is never read as JSON or as a literal
+        expression (a file may well be named `"a"` or `'a'`).
+    """
+
+    __slots__ = ()
+
+    def __call__(self, val: tp.Any) -> PathT:
+        """Unmarshal a value into the bound path type.
+
+        Args:
+            val: The input value to unmarshal.
+        """
+        if isinstance(val, self.t):
+            return val
+        decoded = serdes.decode(val)
+        return self.origin(decoded)  # type: ignore[call-arg,return-value]
+
+
 MappingUnmarshaller = CastUnmarshaller[tp.Mapping]
 IterableUnmarshaller = CastUnmarshaller[tp.Iterable]
 
